@@ -454,6 +454,33 @@ class Ctx(object):
     def _decide(self, goal, goals, lt, rt, use_tol):
         """Pose one obligation; returns a plain dict (so that it can cross a process boundary)."""
         out = {'r': 'unknown'}
+        if len(lt) == len(rt) and T.has_div(list(lt) + list(rt)) and all(t.sort != T.B for t in lt):
+            # rational identities: first try with cleared denominators (every denominator is non-zero on
+            # this path by the definedness rule), which is a polynomial identity
+            try:
+                cleared = []
+                for u, v in zip(lt, rt):
+                    if u is v:
+                        continue
+                    (n1, d1), (n2, d2) = T.num_den(u), T.num_den(v)
+                    cleared.append(T.not_(T.eq(T.mul(n1, d2), T.mul(n2, d1))))
+                if cleared and (goal.op == 'or' or len(cleared) == 1) and goal.op != 'and':
+                    s2 = ENG.fresh_solver_abs(min(10000, self.S.obligation_timeout_ms))
+                    s2.add(T.to_z3_abs(T.or_(*cleared)))
+                    if str(s2.check()) == 'unsat':
+                        out['r'] = 'unsat'
+                        out['cleared_denominators'] = True
+                        return out
+            except ValueError:
+                pass
+        if T.apps([goal] + list(ENG.pc) + list(ENG.axioms)):
+            # uninterpreted applications abstracted to variables: pure NRA, decided by nlsat; unsat carries over
+            s1 = ENG.fresh_solver_abs(min(10000, self.S.obligation_timeout_ms))
+            s1.add(T.to_z3_abs(goal))
+            if str(s1.check()) == 'unsat':
+                out['r'] = 'unsat'
+                out['abstracted_apps'] = True
+                return out
         s = ENG.fresh_solver(self.S.obligation_timeout_ms)
         s.add(T.to_z3(goal))
         r = str(s.check())
